@@ -549,6 +549,37 @@ def _index_scan_rules(ck, P, b):
                and n["a"] and ir.contains(n["a"][0], lambda y: y.get("k") == "field" and y.get("name") == "offset")]
         ok3 = len(srt) >= 1 and order[id(srt[0])] < order[id(loops[0])]
     ck.check(ok3, "R-INDEX-SCAN", key + "|sorted", "entries are sorted by offset before they are merged into chunks", "entries are not sorted by offset before chunking (Chunk::push requires ascending offsets; de-duplicated tiles are not in index order)", ir.loc(loops[0]) if loops else ir.loc(b))
+    # V6: every entry ends up in exactly one chunk, every chunk in the chunk list
+    if len(loops) == 1:
+        from . import mvt
+        lp = loops[0]
+        lv = ir.pat_binds(lp["pat"])
+        lvh = lv[0]["hid"] if len(lv) == 1 else None
+
+        def is_push(n):
+            if n.get("k") == "mcall" and (n.get("q") or "").endswith("Chunk::push") and n["a"] and ir.local_hid(n["a"][0]) == lvh:
+                return 1
+            return None
+        counts = mvt.exit_counts(P, {"body": lp["body"]}, is_push)
+        esc = [n["k"] for n in ir.walk_nodes(lp["body"]) if n.get("k") in ("break", "continue")]
+        ck.check(counts == {1} and not esc and lvh is not None, "R-INDEX-SCAN", key + "|every-entry-chunked", "on every path through the merge loop the entry is pushed into exactly one chunk",
+                 "an entry can pass the merge loop with %s pushes (paths: %s)%s: a tile that starts a new chunk is lost or duplicated" % (sorted(counts), sorted(counts), " and the loop has %s" % esc if esc else ""), ir.loc(lp))
+        pushes = [n for n in ir.walk_nodes(lp["body"]) if n.get("k") == "mcall" and (n.get("q") or "").endswith("Chunk::push")]
+        ch = ir.local_hid(pushes[0]["recv"]) if pushes else None
+        ok_keep = ch is not None
+        for blk in ir.walk_nodes(lp["body"]):
+            if blk.get("k") != "block":
+                continue
+            sts = ir.stmts_of(blk)
+            for i, st in enumerate(sts):
+                x = st["e"] if st.get("k") == "semi" else st
+                if x.get("k") == "assign" and ir.local_hid(x["l"]) == ch:
+                    before = [y for s_ in sts[:i] for y in ir.walk_nodes(s_) if y.get("k") == "mcall" and y.get("q") == "alloc::vec::Vec::push" and y["a"] and ir.local_hid(y["a"][0]) == ch]
+                    ok_keep = ok_keep and len(before) == 1
+        after = [y for y in ir.walk_nodes(b["body"]) if y.get("k") == "mcall" and y.get("q") == "alloc::vec::Vec::push" and y["a"] and ir.local_hid(y["a"][0]) == ch
+                 and not ir.contains(lp, lambda z: z is y)]
+        ck.check(ok_keep and len(after) == 1, "R-INDEX-SCAN", key + "|every-chunk-kept", "a chunk is appended to the chunk list before it is replaced, and the last one after the loop",
+                 "a chunk can be replaced or left over without being appended to the chunk list", ir.loc(lp))
     # V4
     gr = [n for n in ir.walk_nodes(b["body"]) if n.get("k") == "mcall" and n.get("name") == "get_range" and "Blob" in (n.get("q") or "")]
     ok4 = False
